@@ -192,6 +192,11 @@ def _binary_confusion_matrix_update_input_check(
             "The `input` and `target` should have the same dimensions, "
             f"got shapes {input.shape} and {target.shape}."
         )
+    if target.numel() > 0 and (torch.min(target) < 0 or torch.max(target) > 1):
+        raise ValueError(
+            "target should only contain the class labels 0 and 1 for binary confusion matrix, "
+            f"got values in the range [{torch.min(target)}, {torch.max(target)}]."
+        )
 
 
 def _confusion_matrix_compute(
@@ -274,6 +279,10 @@ def _confusion_matrix_update_input_check(
                 "Got `input` prediction class which is too large for the number of classes, "
                 f"num_classes: {num_classes} must be strictly greater than max class predicted: {torch.max(input)}."
             )
+        if torch.min(input) < 0:
+            raise ValueError(
+                f"Got `input` prediction class which is negative: {torch.min(input)}."
+            )
 
     # check if num classes is high enough to cover targets.
     # pyre-fixme[58]: `>=` is not supported for operand types `Tensor` and
@@ -283,3 +292,5 @@ def _confusion_matrix_update_input_check(
             "Got `target` class which is larger than the number of classes, "
             f"num_classes: {num_classes} must be strictly greater than max target: {torch.max(target)}."
         )
+    if torch.min(target) < 0:
+        raise ValueError(f"Got `target` class which is negative: {torch.min(target)}.")
